@@ -496,8 +496,8 @@ prop(
         "layer (a) interleaves at call granularity (a single-threaded caller cannot be preempted inside a call)",
     ],
     [
-        Leg("std", "release", "interleave", "C18", 30000, 600000, max_ops=60),
-        Leg("std", "checked", "interleave", "C18", 15000, 300000, max_ops=60),
+        Leg("std", "release", "interleave", "C18", 20000, 600000, max_ops=60),
+        Leg("std", "checked", "interleave", "C18", 10000, 300000, max_ops=60),
         Leg("portable", "checked", "interleave", "C18", 0, 150000, max_ops=60),
     ],
     [REAL, STUB + "; Miri interprets the real crates (portable SIMD backend)"],
@@ -715,7 +715,7 @@ def classify_miri(out):
     return "abnormal exit"
 
 
-NW = 30
+NW = 62
 
 
 def run_miri_layer(pid, tier, sd, replay_dir, results, violations, known, others):
@@ -1121,9 +1121,9 @@ def selftest_determinism():
                     print("NONDETERMINISTIC: %s/%s/%s at %d workers: %d of %d seeds differ, first run index %s" % (sc, mix, profile, threads, len(diff), len(ref), diff[:3]))
             log("[determinism] %s/%s/%s: 4 executions x 2000 seeds compared" % (sc, mix, profile))
     native = miri_native()
-    exp = subprocess.run([native, "expected", "7", "15"], stdout=subprocess.PIPE, text=True).stdout.strip()
-    r1 = miri_run(7, 15, exp, 100, 104, "0.2")
-    r2 = miri_run(7, 15, exp, 100, 104, "0.2")
+    exp = subprocess.run([native, "expected", "7", "62"], stdout=subprocess.PIPE, text=True).stdout.strip()
+    r1 = miri_run(7, 62, exp, 100, 104, "0.2")
+    r2 = miri_run(7, 62, exp, 100, 104, "0.2")
     w1 = sorted(l for l in r1[1].splitlines() if l.startswith("WORKLOAD"))
     w2 = sorted(l for l in r2[1].splitlines() if l.startswith("WORKLOAD"))
     if w1 != w2:
